@@ -382,7 +382,15 @@ func (q *ReqIO) clientBreakRead(err error) {
 
 // clientAbort is the client going away: net/http cancels the request context,
 // pending and later reads fail, writes fail.
+// clientAbort is the atomic form; clientBreakIO + cancel are its two halves
+// (net/http does not promise their order: x/net/http2 fails the body before it
+// cancels the context, HTTP/1 may notice the closed connection first).
 func (q *ReqIO) clientAbort() {
+	q.clientBreakIO()
+	q.cancel()
+}
+
+func (q *ReqIO) clientBreakIO() {
 	q.mu.Lock()
 	q.inPendingAt = len(q.in)
 	if q.inEOF || q.inErr != nil {
@@ -392,7 +400,6 @@ func (q *ReqIO) clientAbort() {
 	q.aborted = true
 	q.sync()
 	q.mu.Unlock()
-	q.cancel()
 }
 
 func (q *ReqIO) clientBreakWrites() {
